@@ -395,6 +395,7 @@ type Explorer struct {
 	Capped      bool
 	Outcomes    map[string]int64
 	MaxPoints   int
+	MaxThreads  int // most threads in one execution (harness threads plus goroutines the code under test started)
 }
 
 // Run executes one schedule: it follows prefix (an out-of-range choice is a hard error),
@@ -592,6 +593,9 @@ func (e *Explorer) Run(prefix []int) (x *Execution, err error) {
 	}
 	if len(x.Points) > e.MaxPoints {
 		e.MaxPoints = len(x.Points)
+	}
+	if x.Threads > e.MaxThreads {
+		e.MaxThreads = x.Threads
 	}
 	return x, err
 }
